@@ -213,6 +213,23 @@ pub fn check_text(c: &TextCase) -> CheckResult {
     ok(c.text.contains("[Key]"), if r.is_ok() { "accepted" } else { "rejected" })
 }
 
+/// A single well-formed section whose name is `bytes` bytes long, built from a multi-byte character plus ASCII fill:
+/// accepted exactly when 1 <= bytes <= 128 (the limit is in bytes, whatever the characters are).
+#[derive(Clone, Debug, Serialize, Deserialize)]
+pub struct NameLen { pub ch: char, pub bytes: usize, pub fill_first: bool }
+pub fn check_name_len(c: &NameLen) -> CheckResult {
+    let w = c.ch.len_utf8(); let k = c.bytes / w; let fill = c.bytes - k * w;
+    let name = if c.fill_first { format!("{}{}", "x".repeat(fill), c.ch.to_string().repeat(k)) } else { format!("{}{}", c.ch.to_string().repeat(k), "x".repeat(fill)) };
+    if name.len() != c.bytes || name.trim() != name { return ok(false, "skipped"); }
+    let text = format!("[Key]\nName = {}\nPublicKey = {}\n", name, vals().pk[0]);
+    let want = c.bytes >= 1 && c.bytes <= 128;
+    let got = Keyring::new(&text);
+    ensure!(got.is_ok() == want, "a keyring whose only name is {} bytes ({} characters of {:?} and ASCII) was {}; names of 1 to 128 bytes are the accepted ones", c.bytes, name.chars().count(), c.ch, if got.is_ok() { "accepted" } else { "rejected" });
+    ensure!(Keyring::valid_key_name(&name) == want, "valid_key_name (used by `key generate`) says {} for a name of {} bytes ({} characters)", !want, c.bytes, name.chars().count());
+    if let Ok(kr) = got { ensure!(kr.get_key(&name).map(|k| k.name == name).unwrap_or(false), "accepted name not found"); }
+    ok(c.bytes > 100 && w > 1, format!("name-bytes/{}", if want { "within" } else { "beyond" }))
+}
+
 pub fn run(ctx: &Ctx) {
     set_rule("C17", "(1) every sequence of length <= L over 15 line tokens ([Key]; Name = a|b|A|129 bytes|empty; PublicKey = pk1|pk2|35-byte|junk; PrivateKey = sk|junk; comment; blank; junk) in 4 spacing/tab/CRLF renderings - the generator is the structure, so the sectioning is known by construction; (1b) every sequence of <= M sections over 12 section shapes; (2) keyrings in the shape the tool writes, with names from the domain key generation accepts (any Unicode without line breaks, trimmed, filtered by the tool's own validity test); (3) random texts; (4) 36-byte blobs with good/bad checksum, other lengths, every single-character replacement class. Oracle: accepted => structure valid per the statement and lookups by name / key return exactly the sections; tool-written keyrings read back; decode_public_key Ok <=> strict base64 of 32 bytes + SHA-256[..4]. Non-trivial = text with >= 1 [Key] line and >= 1 field line (public-key cases: all); distinct by enumeration index / hash of the case");
     ctx.assume("leniency for hand-written files (tabs inside values, extra junk) is not an obligation: a structure the model calls valid but the parser rejects is only counted");
@@ -223,6 +240,8 @@ pub fn run(ctx: &Ctx) {
     ctx.pbt("tool_written_keyrings", ctx.n(200_000, 1_500_000), || (proptest::collection::vec(name_strategy(), 1..6), any::<u64>(), any::<bool>()).prop_map(|(names, seed, leading_newline)| Written { names, seed, leading_newline }), check_written);
     // every code point below U+3100 at start, middle and end of a name
     ctx.sse("name_code_points", "every code point < U+3100 placed at the start, middle and end of a name", 0x3100 * 3, |i| { let ch = char::from_u32((i / 3) as u32).unwrap_or('x'); let n = match i % 3 { 0 => format!("{}ab", ch), 1 => format!("a{}b", ch), _ => format!("ab{}", ch) }; Written { names: vec![n, "other".into()], seed: 9, leading_newline: false } }, check_written);
+    { let mut v = Vec::new(); for ch in ['a', 'é', 'ß', '€', '한', '😀'] { for bytes in (1..=8).chain(60..=70).chain(120..=140).chain([192, 256, 257, 384, 512]) { for fill_first in [false, true] { v.push(NameLen { ch, bytes, fill_first }); } } }
+      ctx.sse_vec("name_length_in_bytes", "one well-formed section whose name is 1..8, 60..70, 120..140, 192..512 bytes of 1-, 2-, 3- and 4-byte characters: accepted exactly up to 128 BYTES, by the parser and by the name test of `key generate`", v, check_name_len); }
     // error paths that mention a name: duplicates and over-long names made of multi-byte characters at every byte alignment
     let mut uni = Vec::new();
     for ch in ['é', '€', '😀', 'a'] { for k in 0..4usize { for n in 1..=70usize { let name = format!("{}{}", "x".repeat(k), ch.to_string().repeat(n)); if name.len() > 150 { break; }
